@@ -57,9 +57,21 @@ def case_ops(trace_lines, caseid):
             m = re.search(r"fibm=(\d+)", l)
             if m and int(m.group(1)) > 0:
                 hdr.append("fibm %d" % int(m.group(1)))
-        if on and l.startswith("ev "):
+        if on and (l.startswith("ev ") or l == "mark frames"):
             ops.append(l)
     return hdr, ops
+
+
+def take_events(ops, n):
+    """the prefix of ops holding the first n events (marker lines are not events)"""
+    out, k = [], 0
+    for l in ops:
+        if l.startswith("ev "):
+            if k == n:
+                break
+            k += 1
+        out.append(l)
+    return out
 
 
 def ops_text(hdr, ops):
@@ -193,7 +205,7 @@ def run(R, prop, extra_assumptions=()):
                 p = l.split(" ", 4)
                 nthr, ops = case_ops(lines, p[1])
                 R.divergence("case %s event %s: %s differs between model and implementation" % (p[1], p[2], p[3]),
-                             dict(trace=label, case=p[1], event=int(p[2]), what=p[3], detail=p[4][:3000], threads=nthr, ops=ops[:int(p[2])]))
+                             dict(trace=label, case=p[1], event=int(p[2]), what=p[3], detail=p[4][:3000], threads=nthr, ops=take_events(ops, int(p[2]))))
             elif l.startswith("ORACLE " + prop):
                 p = l.split(" ", 5)
                 sig = p[4]
@@ -205,7 +217,7 @@ def run(R, prop, extra_assumptions=()):
                     continue
                 seen_sig[sig] = 1
                 nthr, ops = case_ops(lines, p[2])
-                ops = ops[:int(p[3])]
+                ops = take_events(ops, int(p[3]))
                 small = shrink(R, exe, prop, nthr, ops, sig.split(":")[0]) if len(seen_sig) <= 4 else ops
                 R.oracle_failure(sig, detail.lstrip("| "), dict(trace=label, case=p[2], event=int(p[3]), threads=nthr, ops=small,
                                                               replay_hint="VERIF_OPS=<file with these ev lines> go1.26 test -tags verif ./harness/fwcore"))
